@@ -355,6 +355,14 @@ func VfShutdown(cc Cache) {
 	}
 }
 
+// VfForget evicts key (harness-driven eviction, as if by space pressure).
+func VfForget(cc Cache, key string) {
+	c := vfUnwrap(cc)
+	c.mu.Lock()
+	c.lru.RemoveKey(key)
+	c.mu.Unlock()
+}
+
 // VfSeedTempfiles makes temp file suffixes reproducible.
 func VfSeedTempfiles(s uint32) { tfc.VfSeed(s) }
 
